@@ -2,6 +2,7 @@ import KyberModel.Lib.Embed
 import KyberModel.Lib.Ed25519
 import KyberModel.Props.C04
 import KyberModel.Groups.HashToCurve
+import KyberModel.Lib.EmbedElligator
 /-
 C17 — Pick, Embed and hash-to-group give group members; Embed is lossless.
 
@@ -17,7 +18,10 @@ Model: `Groups/Embed.lean` (Embed / Data / Pick as functions of the bytes drawn 
 * `data_error_iff` — `Data` errs exactly when the length byte exceeds `EmbedLen`;
 * `pick_shape`, `pick_order_partial` — without data the result is `8•P' ≠ O`; it has order dividing `L`
   RELATIVE TO the named hypothesis `H_card25519` (`#E(F_p) = 8·L`, not provable here);
-* hash-to-curve: output lengths and ranges of `expand_message_xmd` / `hash_to_field`.
+* hash-to-curve: output lengths and ranges of `expand_message_xmd` / `hash_to_field`; the Elligator 2 map
+  lands on the curve for EVERY field element (`elligator_montgomery`, `elligator_valid`: field-level
+  lemma, using that 2 is a non-residue and Fermat's little theorem); `Hash` is total and returns a valid
+  curve point, of order dividing `L` relative to `H_card25519` (`hash_order_partial`).
   Collision-freeness ("differs for different messages") is a property of SHA-512 and is only tested.
 -/
 namespace Kyber.C17
@@ -457,6 +461,46 @@ theorem hash_total (msg dst : Bytes) : (H2C.hash msg dst).isSome = true := by
   cases hq : expandXmd msg (if dst.length = 0 then defaultDst else dst) 96 with
   | none => exact absurd hq this
   | some ub => rfl
+
+/-- The Elligator 2 map lands on Curve25519: for every `u` the output `(xn, xd, y, 1)` satisfies
+    `y²·xd³ = xn³ + J·xn²·xd + xn·xd²` in `ZMod p`, with `xd ≠ 0`. -/
+theorem elligator_montgomery (u : Nat) :
+    ((Ell2.y u : Nat) : ZMod Ed25519.p) ^ 2 * ((Ell2.xd u : Nat) : ZMod Ed25519.p) ^ 3 =
+      ((Ell2.xn u : Nat) : ZMod Ed25519.p) ^ 3
+        + ((J : Nat) : ZMod Ed25519.p) * ((Ell2.xn u : Nat) : ZMod Ed25519.p) ^ 2 * ((Ell2.xd u : Nat) : ZMod Ed25519.p)
+        + ((Ell2.xn u : Nat) : ZMod Ed25519.p) * ((Ell2.xd u : Nat) : ZMod Ed25519.p) ^ 2 ∧
+    ((Ell2.xd u : Nat) : ZMod Ed25519.p) ≠ 0 :=
+  EllLib.ell2_onCurve u
+
+/-- … and `mapToCurveElligator2Ed25519` returns a valid point of edwards25519 (reduced coordinates, on the
+    curve) for EVERY field element. -/
+theorem elligator_valid (u : Nat) : Ed25519.Valid (mapToEdwards u) := EllLib.mapToEdwards_valid u
+
+theorem elligator_onCurve (u : Nat) : Ed25519.onCurve (mapToEdwards u) = true :=
+  (Ed25519.onCurve_iff _).mpr (elligator_valid u).2.2
+
+/-- `Hash` returns a valid curve point. -/
+theorem hash_valid (msg dst : Bytes) (P : Edwards.Pt) (h : H2C.hash msg dst = some P) : Ed25519.Valid P := by
+  unfold H2C.hash at h
+  split at h
+  · cases h
+  · rw [← Option.some.inj h]
+    exact Ed25519.valid_smul (Ed25519.valid_add (elligator_valid _) (elligator_valid _)) 8
+
+/-- Partial (relative to `H_card25519`): the hash output lies in the subgroup of order `L`. -/
+theorem hash_order_partial (hcard : C17.Ed25519.H_card25519) (msg dst : Bytes) (P : Edwards.Pt)
+    (h : H2C.hash msg dst = some P) : Ed25519.smul Ed25519.L P = Edwards.zero := by
+  unfold H2C.hash at h
+  split at h
+  · cases h
+  · rename_i u0 u1 _
+    rw [← Option.some.inj h]
+    have hv := Ed25519.valid_add (elligator_valid u0) (elligator_valid u1)
+    have h8 := Ed25519.valid_smul hv 8
+    have hL := Ed25519.valid_smul h8 Ed25519.L
+    apply Ed25519.toG_injective hL Ed25519.valid_zero
+    rw [Ed25519.toG_smul h8, Ed25519.toG_smul hv, Ed25519.toG_zero, smul_smul, Nat.mul_comm]
+    exact hcard _
 
 end H2C
 end Kyber.C17
